@@ -26,7 +26,7 @@ OPS = ['Create', 'CreateKeyPair', 'Register', 'DeriveKey', 'Locate', 'Get',
 STATES = ['PreActive', 'Active', 'Deactivated', 'Compromised']
 NPARAM = 6
 ATTR_SWEEP = 3 * 7 * 6     # operation x object type x version
-PARAM_SWEEP = 5 * 3        # parameter family x version
+PARAM_SWEEP = 6 * 3        # parameter family x version
 GRID = len(OPS) * len(gen.OTYPES) * len(STATES) * len(gen.VERSIONS) * NPARAM
 COUNT = {'quick': 5200, 'thorough': GRID + 30000}
 SWEEP = {'quick': 4200, 'thorough': GRID}
@@ -551,6 +551,94 @@ def generate(rng, tier, index):
                                     'data': '00' * 16, 'iv': '01' * 16,
                                     'cp': {'alg': 3, 'mode': 1,
                                            'padding': pad}})
+        elif kind == 5:
+            # combinations in which each factor alone is handled: keying
+            # objects without an algorithm of their own, wrapping of objects
+            # without a key block, specifications without parameters,
+            # current / new attributes of different kinds, dates at the
+            # edge of what the store's date column holds
+            otype = 'SymmetricKey'
+            extra_setup = [
+                {'op': 'Register', 'label': 'sd', 'otype': 'SecretData',
+                 'attrs': [A('Cryptographic Usage Mask', 0x200 | 12)],
+                 'obj': {'sdtype': 1, 'kft': 2, 'value': '5a' * 16}},
+                {'op': 'Activate', 'uid': '@sd'},
+                {'op': 'Register', 'label': 'opq', 'otype': 'OpaqueData',
+                 'attrs': [], 'obj': {'odtype': 0x80000000,
+                                      'value': '6b' * 16}},
+                {'op': 'Register', 'label': 'wk5', 'otype': 'SymmetricKey',
+                 'attrs': [A('Cryptographic Usage Mask', 0x30)],
+                 'obj': {'kft': 1, 'value': '7c' * 16, 'alg': 3,
+                         'len': 128}},
+                {'op': 'Activate', 'uid': '@wk5'}]
+            dk = {'op': 'DeriveKey', 'otype': 'SymmetricKey',
+                  'attrs': [A('Cryptographic Length', 128),
+                            A('Cryptographic Algorithm', 3),
+                            A('Cryptographic Usage Mask', 12)]}
+            for base in ('@sd', '@x', '@opq'):
+                for m in range(1, 9):
+                    for cp in ({}, {'mode': 1}, {'mode': 1, 'padding': 3},
+                               {'hash': 6}, {'alg': 3, 'mode': 1}):
+                        probes_.append(dict(dk, uids=[base], method=m,
+                                            params={'cp': cp, 'data': 'aabb',
+                                                    'iv': '01' * 16,
+                                                    'salt': 'ccdd',
+                                                    'iter': 2}))
+            for alg in (3, 0x16, 2):
+                for mode in (1, 9, 6):
+                    for tl in (None, 16):
+                        cp = {'alg': alg, 'mode': mode}
+                        if tl:
+                            cp['tag_len'] = tl
+                        for name in ('Encrypt', 'Decrypt'):
+                            probes_.append({'op': name, 'uid': '@x',
+                                            'data': '00' * 16,
+                                            'iv': '01' * 12, 'cp': cp})
+            for tgt in ('@x', '@opq', '@sd', '@wk5'):
+                for spec in ({'method': 1, 'enc': {'uid': '@wk5', 'cp': {
+                                  'mode': 0xD}}, 'encoding': 1},
+                             {'method': 1, 'enc': {'uid': '@wk5'},
+                              'encoding': 1},
+                             {'method': 1, 'enc': {'uid': '@wk5', 'cp': {
+                                 'mode': 0xD}}},
+                             {'method': 2, 'mac': {'uid': '@wk5', 'cp': {
+                                 'hash': 6}}, 'encoding': 1},
+                             {'method': 1, 'enc': {'uid': '@wk5', 'cp': {
+                                 'mode': 1}}, 'encoding': 1},
+                             {'method': 1, 'enc': {'uid': '@opq', 'cp': {
+                                 'mode': 0xD}}, 'encoding': 1}):
+                    probes_.append({'op': 'Get', 'uid': tgt,
+                                    'wrapspec': spec})
+            if ver >= (2, 0):
+                pairs = [(A('Name', ['n', 1]), A('Sensitive', True)),
+                         (A('Sensitive', False), A('Name', ['m', 1])),
+                         (A('Object Group', 'g'), A('Name', ['m', 1])),
+                         (A('Name', ['n', 1]), A('Object Group', 'g')),
+                         (A('State', 1), A('Name', ['m', 1])),
+                         (A('Name', ['', 1]), A('Name', ['m', 1]))]
+                for cur, new_ in pairs:
+                    probes_.append({'op': 'ModifyAttribute', 'uid': '@x',
+                                    'cur': cur, 'new': new_})
+                    probes_.append({'op': 'DeleteAttribute', 'uid': '@x',
+                                    'cur': cur})
+            for drop in ('alg', 'len', 'kft'):
+                o = {'kft': 1, 'value': '11' * 16, 'alg': 3, 'len': 128}
+                o.pop(drop)
+                for ot2 in ('SymmetricKey', 'SplitKey'):
+                    o2 = dict(o)
+                    if ot2 == 'SplitKey':
+                        o2.update({'parts': 3, 'part_id': 1, 'threshold': 2,
+                                   'method': 1})
+                    probes_.append({'op': 'Register', 'otype': ot2,
+                                    'attrs': [A('Cryptographic Usage Mask',
+                                                12)], 'obj': o2})
+            for d in (0, 1, 2 ** 31, 2 ** 32, 2 ** 55, 2 ** 56, 2 ** 62,
+                      2 ** 63 - 1, -1, -2 ** 63):
+                probes_.append({'op': 'Locate', 'attrs': [
+                    A('Initial Date', d, k='date')]})
+                probes_.append({'op': 'Locate', 'attrs': [
+                    A('Initial Date', 0, k='date'),
+                    A('Initial Date', d, k='date')]})
         elif kind == 4:
             # the Unique Identifier itself: every operation that names an
             # object x identifiers at and beyond the edges of what the
@@ -610,6 +698,9 @@ def generate(rng, tier, index):
                                         A('Cryptographic Algorithm', 3),
                                         A('Cryptographic Usage Mask', 12)]})
         steps = setup_steps(otype, 'Active', r, ctx)
+        if kind == 5:
+            for op in extra_setup:
+                steps.append({'actor': 0, 'ver': [1, 2], 'items': [op]})
         for op in probes_:
             steps.append({'actor': 0, 'ver': list(ver), 'items': [op],
                           'probe': True})
